@@ -509,6 +509,49 @@ pub struct Framing {
     /// a client that stopped sending; the driver then drops the request future
     #[serde(default)]
     pub stall_at: Option<usize>,
+    /// what kind of error `error_at` yields: None = the harness's own error type; "io:<Kind>" = a std::io::Error of
+    /// that kind (ConnectionReset, ConnectionAborted, BrokenPipe, UnexpectedEof, TimedOut, Other); "wrapped:<Kind>" =
+    /// an error of another type whose source() is such an io::Error (the shape of hyper's body errors)
+    #[serde(default)]
+    pub error_kind: Option<String>,
+}
+
+pub const TRANSPORT_ERROR_KINDS: &[Option<&str>] = &[
+    None, Some("io:ConnectionReset"), Some("io:ConnectionAborted"), Some("io:BrokenPipe"), Some("io:UnexpectedEof"), Some("io:TimedOut"), Some("io:Other"),
+    Some("wrapped:ConnectionReset"), Some("wrapped:UnexpectedEof"),
+];
+
+#[derive(Debug)]
+pub struct WrappedTransportError(std::io::Error);
+impl std::fmt::Display for WrappedTransportError {
+    fn fmt(&self, f: &mut std::fmt::Formatter<'_>) -> std::fmt::Result {
+        write!(f, "verif: error reading a body from connection")
+    }
+}
+impl std::error::Error for WrappedTransportError {
+    fn source(&self) -> Option<&(dyn std::error::Error + 'static)> {
+        Some(&self.0)
+    }
+}
+
+fn transport_error(kind: Option<&str>) -> Box<dyn std::error::Error + Send + Sync> {
+    let io = |k: &str| {
+        use std::io::ErrorKind as K;
+        let kind = match k {
+            "ConnectionReset" => K::ConnectionReset,
+            "ConnectionAborted" => K::ConnectionAborted,
+            "BrokenPipe" => K::BrokenPipe,
+            "UnexpectedEof" => K::UnexpectedEof,
+            "TimedOut" => K::TimedOut,
+            _ => K::Other,
+        };
+        std::io::Error::new(kind, "verif: injected transport error")
+    };
+    match kind {
+        None => Box::new(InjectedBodyError),
+        Some(k) if k.starts_with("io:") => Box::new(io(&k[3..])),
+        Some(k) => Box::new(WrappedTransportError(io(k.strip_prefix("wrapped:").unwrap_or(k)))),
+    }
 }
 
 pub struct FramedBody {
@@ -564,7 +607,7 @@ impl std::error::Error for InjectedBodyError {}
 
 impl http_body::Body for FramedBody {
     type Data = Bytes;
-    type Error = InjectedBodyError;
+    type Error = Box<dyn std::error::Error + Send + Sync>;
 
     fn poll_frame(mut self: Pin<&mut Self>, cx: &mut Context<'_>) -> Poll<Option<Result<Frame<Bytes>, Self::Error>>> {
         let this = &mut *self;
@@ -604,7 +647,7 @@ impl http_body::Body for FramedBody {
             this.idx += 1;
             this.frames.clear();
             this.framing.error_at = None;
-            return Poll::Ready(Some(Err(InjectedBodyError)));
+            return Poll::Ready(Some(Err(transport_error(this.framing.error_kind.as_deref()))));
         }
         match this.frames.pop_front() {
             Some(b) => {
@@ -1307,6 +1350,80 @@ pub fn replay_overlap(prop: &str, w: &serde_json::Value) -> crate::core::Report 
     } else {
         judge_overlap(&mut r, prop, &rt, None, &cfg, &kinds, &reqs, seed);
     }
+    r
+}
+
+
+// ---------------------------------------------------------------------------------------------
+// Transport faults: the request body fails (connection reset, …) instead of yielding frame k.  Whatever the kind
+// of body - buffered XML, plain stream, chunk-signed stream, form upload - an upload that did not arrive must not be
+// taken for one that did: either the backend is not invoked at all, or it is handed a stream that ENDS WITH AN ERROR
+// after a prefix of the bytes that were sent; the request is never answered with a success status.
+// ---------------------------------------------------------------------------------------------
+
+/// `req` must carry a non-empty body the operation consumes; `sent_payload` is what a complete delivery hands to the
+/// backend (None: not known, prefix test skipped).  The fault replaces a frame that still has bytes to deliver.
+pub fn judge_transport_fault(
+    r: &mut crate::core::Report,
+    prop: &str,
+    rt: &tokio::runtime::Runtime,
+    cfg: &SvcCfg,
+    kind: &str,
+    req: &RawRequest,
+    sent_payload: Option<&[u8]>,
+    pos_class: &str,
+) {
+    let fr = req.framing.clone().unwrap_or_default();
+    let ek = fr.error_kind.clone().unwrap_or_else(|| "custom".into());
+    let (out, events) = session_suspended(|| run_once(rt, cfg, None, req));
+    let wit = |what: &str| serde_json::json!({"kind": "transport-fault", "what": what, "body_kind": kind, "cfg": cfg, "request": req, "sent_payload_len": sent_payload.map(<[u8]>::len), "trace": brief_events(&events), "outcome": out.to_json()});
+    let sig = |what: &str| format!("{prop}/transport-fault/{what}/{}/{}", kind.split('/').next().unwrap_or(""), ek.split(':').next().unwrap_or(""));
+    match &out {
+        CallOutcome::Panic(_) | CallOutcome::Hang => {
+            r.violated(sig("no-response"), wit("panic or hang"));
+            return;
+        }
+        CallOutcome::Unbuildable => {
+            r.inconclusive("request not expressible with the http crate");
+            return;
+        }
+        _ => {}
+    }
+    let be = backend_events(&events);
+    for b in &be {
+        match &b.body_end {
+            BodyEnd::Error(_) => {
+                if let Some(p) = sent_payload {
+                    if !p.starts_with(&b.body) {
+                        r.violated(sig("delivered-bytes-not-a-prefix"), wit("the backend was handed bytes that are not a prefix of the payload"));
+                        return;
+                    }
+                }
+            }
+            BodyEnd::Clean | BodyEnd::NoBody | BodyEnd::NotDrained => {
+                r.violated(sig("upload-that-did-not-arrive-taken-as-complete"), wit("the backend ran and its input did not end with an error although the transport failed before the body was complete"));
+                return;
+            }
+        }
+    }
+    // (when the backend was handed a stream that ended with an error, the answer is the backend's business: the
+    // recording backend answers Ok whatever its stream did)
+    if let (Some(resp), true) = (out.response(), be.is_empty()) {
+        if resp.status < 300 {
+            r.violated(sig("success-status"), wit("success status for a request whose body failed in transit although no backend ran"));
+            return;
+        }
+    }
+    r.held(format!("transport-fault/{kind}/{ek}/{pos_class}/{}", if be.is_empty() { "backend-not-invoked" } else { "stream-ended-with-error" }));
+    r.count("transport_faults_injected", 1);
+}
+
+pub fn replay_transport_fault(prop: &str, w: &serde_json::Value) -> crate::core::Report {
+    let mut r = crate::core::Report::new();
+    let cfg: SvcCfg = serde_json::from_value(w["cfg"].clone()).unwrap_or_else(|e| crate::core::harness_error(&format!("bad cfg: {e}")));
+    let req: RawRequest = serde_json::from_value(w["request"].clone()).unwrap_or_else(|e| crate::core::harness_error(&format!("bad request: {e}")));
+    let rt = new_runtime();
+    judge_transport_fault(&mut r, prop, &rt, &cfg, w["body_kind"].as_str().unwrap_or(""), &req, None, "replay");
     r
 }
 
